@@ -268,6 +268,8 @@ def local_edit(rng, o, struct_arity):
             cs = cs + [(0, 8000 + rng.randrange(1000))]
         if t == 9 and h[3][0] == 2:
             h = (9, h[1], h[2], (2, *[(0, i) for i in range(len(cs))]))
+        if t == 6 and len(h) > 1 and h[1] < len(cs):
+            h = (6, len(cs))
         new = (1, h, *cs)
     elif choice == 2 and t in (3, 4, 5):                  # change one key
         ks = list(h[1:] if t != 5 else h[2:])
